@@ -31,12 +31,16 @@ Inductive top :=
 | OSort (ck : N)                                     (* a consistent comparator, see [cmp_of] *)
 | OSortObs (log : list (N * N * Z)) (out : list (option N))   (* arbitrary recorded comparator + observed result *)
 | OExport
-| OToggle (to_sparse : bool) (drift : N).                       (* twin only: the storage was switched (no-op for S) *)
+| OToggle (to_sparse : bool) (drift : N)
+| OBulk (from n : N)                                 (* a[from+i] = (from+i) mod 40 + 1 for i < n, strict mode *)
+| OSetLenRe (refl : bool) (n eff k : N)             (* a.length = {valueOf(){ EFFECT; return n }}; eff 1 = freeze(a),
+                                                        2 = defineProperty(a,'length',{writable:false}), 3 = a[k] = 7 *)
+| OGoTrunc (k : N).                                  (* Go side: buf = buf[:k] (Go slice wrapper only) *)                       (* twin only: the storage was switched (no-op for S) *)
 Arguments OSet _ (_ _)%N.  Arguments OSetLen _ _ _%N.  Arguments ODefine _ _%N _.  Arguments ODefLen _ _%N _.
 Arguments ODelete _ _%N.  Arguments OGet _%N.  Arguments OHas _%N.  Arguments OProto (_ _ _ _)%N.
 Arguments OPush _%N.  Arguments OUnshift _%N.  Arguments OSplice _%Z _%Z _%N.  Arguments OFill _%N _%Z _%Z.
 Arguments OCopyWithin (_ _)%Z _%Z.  Arguments OSlice _%Z _%Z.  Arguments OConcat _%N.  Arguments OConcatV _%N.
-Arguments OToggle _ _%N.  Arguments OIndexOf _%N _%Z.  Arguments OIncludes _%N _%Z.  Arguments OSort _%N.  Arguments OSortObs _ _%N.
+Arguments OToggle _ _%N.  Arguments OBulk (_ _)%N.  Arguments OSetLenRe _ (_ _ _)%N.  Arguments OGoTrunc _%N.  Arguments OIndexOf _%N _%Z.  Arguments OIncludes _%N _%Z.  Arguments OSort _%N.  Arguments OSortObs _ _%N.
 
 Inductive dump := DSame | D (len : N) (lw ext : bool) (els ots : list ent).
 Arguments D _%N _ _ _ _.
@@ -77,8 +81,10 @@ Fixpoint lex (a b : list N) : Z :=
   | [], [] => 0%Z | [], _ => (-1)%Z | _, [] => 1%Z
   | x :: r, y :: s => if x <? y then (-1)%Z else if y <? x then 1%Z else lex r s
   end.
+(* element codes >= 5000 stand for the STRING String(v - 5000): equal string form, distinguishable element *)
+Definition strform (v : val) : N := if 5000 <=? v then v - 5000 else v.
 Definition cmp_of (ck : N) (a b : val) : Z :=
-  if ck =? 0 then lex (digits 25 a []) (digits 25 b [])                 (* no comparator: string order *)
+  if ck =? 0 then lex (digits 25 (strform a) []) (digits 25 (strform b) [])   (* no comparator: string order *)
   else if ck =? 1 then (Z.of_N a - Z.of_N b)%Z
   else if ck =? 2 then (Z.of_N (a mod 8) - Z.of_N (b mod 8))%Z         (* many ties: stability is visible *)
   else if ck =? 3 then (Z.of_N b - Z.of_N a)%Z
@@ -100,11 +106,13 @@ Record oops (A : Type) := mkO {
   o_proto : A -> list (N * element);
   o_with_proto : A -> list (N * element) -> A;
   o_export : A -> list (option val);
-  o_dump : A -> dump
+  o_dump : A -> dump;
+  o_setlen_re : A -> N -> N -> N -> A * N;      (* n eff k: length assignment with a re-entrant valueOf *)
+  o_gotrunc : A -> N -> A
 }.
 Arguments o_prims {A}. Arguments o_define {A}. Arguments o_assign_len {A}. Arguments o_define_len {A}.
 Arguments o_getown {A}. Arguments o_integrity {A}. Arguments o_proto {A}. Arguments o_with_proto {A}.
-Arguments o_export {A}. Arguments o_dump {A}.
+Arguments o_export {A}. Arguments o_dump {A}. Arguments o_setlen_re {A}. Arguments o_gotrunc {A}.
 
 Definition bres (refl : bool) (b : bool) : result := if refl then RB b else if b then RU else RErr 1.
 Definition eres (refl : bool) (e : N) : result :=
@@ -166,6 +174,11 @@ Definition step (a : A) (o : top) : A * result :=
       else (a, RErr 99)                    (* the validator rejected the observed result: never matches *)
   | OExport => (a, RA (norm_export (o_export O a)))
   | OToggle _ _ => (a, RU)
+  | OBulk from n =>
+      let '(a', e) := loop (N.to_nat n) true (fun a k => setT P a k (k mod 40 + 1)) a from in
+      (a', if e =? 0 then RU else RErr e)
+  | OSetLenRe refl n eff k => let '(a', e) := o_setlen_re O a n eff k in (a', eres refl e)
+  | OGoTrunc k => (o_gotrunc O a k, RU)
   end.
 
 Definition dump_eqb_dec (x y : dump) : bool :=
@@ -201,8 +214,16 @@ Definition s_assign_len (a : sarr) (l : lenarg) : sarr * N :=
   end.
 Definition s_integ (m : option bool) (a : sarr) : sarr :=
   match m with None => s_with_ext a false | Some f => s_integrity f a end.
+(* OrdinarySet checks [[Writable]] of "length" BEFORE the value is converted; ArraySetLength converts (valueOf runs,
+   twice: the effects are idempotent) and then works on the state the conversion left behind, re-reading
+   [[Writable]] (10.4.2.4 steps 3-12) *)
+Definition s_setlen_re (a : sarr) (n eff k : N) : sarr * N :=
+  if negb (s_lw a) then (a, 1) else
+  let a' := if eff =? 1 then s_integrity true a else if eff =? 2 then s_with_lw a false else fst (s_set a k 7) in
+  let '(a'', ok) := s_array_set_length a' n in (a'', berr ok).
 Definition opsS : oops sarr :=
-  mkO sarr primS s_define s_assign_len s_define_length s_getown s_integ s_proto s_with_proto s_export s_dump.
+  mkO sarr primS s_define s_assign_len s_define_length s_getown s_integ s_proto s_with_proto s_export s_dump
+      s_setlen_re (fun a _ => a).
 
 Definition i_dump (a : iarr) : dump :=
   let els := match a with ID d => enum_from (da_values d) 0 | IS s => sa_items s end in
@@ -213,9 +234,18 @@ Definition i_integ (m : option bool) (a : iarr) : iarr :=
   match m with None => i_prevent a | Some f => i_integrity f a end.
 Definition i_with_proto (a : iarr) (p : list (N * element)) : iarr :=
   let b := i_base a in i_with_base a (mkB (b_ext b) (b_ot b) p).
+(* arrayObject.setOwnStr("length") (array.go:266): writable check, toLengthUint32(val) (user code), then
+   a.setLength on the receiver captured BEFORE the conversion: if the conversion switched the storage the update goes
+   to the dead object (open finding C07-N14) *)
+Definition same_kind (a b : iarr) : bool := match a, b with ID _, ID _ => true | IS _, IS _ => true | _, _ => false end.
+Definition i_setlen_re (a : iarr) (n eff k : N) : iarr * N :=
+  if negb (i_lw a) then (a, 1) else
+  let a' := if eff =? 1 then i_integrity true a else if eff =? 2 then i_with_lw a false else fst (i_set a k 7) in
+  if same_kind a a' then let '(a'', ok) := i_setLength a' n in (a'', berr ok)
+  else (a', berr (snd (i_setLength a n))).
 Definition opsI : oops iarr :=
   mkO iarr primI i_define i_assign_len i_define_length i_getown i_integ (fun a => b_proto (i_base a))
-      i_with_proto i_export i_dump.
+      i_with_proto i_export i_dump i_setlen_re (fun a _ => a).
 
 (* I : the fast paths of builtin_array.go in front of the generic algorithms *)
 Definition stepI (a : iarr) (o : top) : iarr * result :=
@@ -254,6 +284,32 @@ Fixpoint runIops (a : iarr) (prev : dump) (ops : list top) : list obs :=
               let d := i_dump a' in
               Ob res (if dump_eqb_dec d prev then DSame else d) :: runIops a' d r
   end.
+
+(* ---- G : the Go []interface{} wrapper (object_goslice.go), documented exotic variant: every index below the length
+   is present (Go nil reads as null), writing undefined stores nil, writing past the end and growing the length fill
+   with nil, delete stores nil, shrinking truncates; Go code may re-slice the buffer between calls ---- *)
+Definition NULLC : val := 998.
+Definition gfix (v : val) : val := if v =? vundef then NULLC else v.
+Fixpoint gresize (l : list val) (n : nat) : list val :=
+  match n with O => [] | S n' => match l with [] => NULLC :: gresize [] n' | x :: r => x :: gresize r n' end end.
+Definition g_get (l : list val) (k : N) : val := if k <? nlen l then nth (N.to_nat k) l vundef else vundef.
+Definition g_set (l : list val) (k : N) (v : val) : list val * bool :=
+  if 100000 <? k then (l, false) else
+  let l' := if k <? nlen l then l else gresize l (N.to_nat (k + 1)) in
+  (lupd l' (N.to_nat k) (gfix v), true).
+Definition g_del (l : list val) (k : N) : list val * bool :=
+  (if k <? nlen l then lupd l (N.to_nat k) NULLC else l, true).
+Definition g_setlen (l : list val) (n : N) : list val * N :=
+  if 100000 <? n then (l, 2) else (gresize l (N.to_nat n), 0).
+Definition primG : prims (list val) := mkP (list val) nlen g_get (fun l k => k <? nlen l) g_set g_del g_setlen.
+Definition g_dump (l : list val) : dump :=
+  D (nlen l) true true (map (fun p => E (fst p) 7 (snd p) 0) (combine (seqN 0 (length l)) l)) [].
+Definition opsG : oops (list val) :=
+  mkO (list val) primG (fun l _ _ => (l, false)) (fun l a => match a with LValid n => g_setlen l n | LInvalid => (l, 2) end)
+      (fun l _ _ => (l, 1)) (fun l k => if k <? nlen l then Some (EData (g_get l k) true true false) else None)
+      (fun _ l => l) (fun _ => []) (fun l _ => l) (fun l => map Some l) g_dump
+      (fun l _ _ _ => (l, 0)) (fun l k => firstn (N.to_nat k) l).
+Definition initG (l : list (option N)) : list val := map (fun x => match x with Some v => gfix v | None => NULLC end) l.
 
 Fixpoint els_of (l : list (option N)) (i : N) : list (N * element) :=
   match l with
@@ -314,7 +370,9 @@ Fixpoint obs_at (a : A) (prev : dump) (ops : list top) (n : nat) : option obs :=
 End Diff.
 
 Definition stepS := step opsS.
-Definition diffN (c : tcase) := diff_run stepS s_dump (initS (c_kind c) (c_init c)) DSame (c_ops c) (c_obsN c) 0.
+Definition diffN (c : tcase) :=
+  if c_kind c =? 2 then diff_run (step opsG) g_dump (initG (c_init c)) DSame (c_ops c) (c_obsN c) 0
+  else diff_run stepS s_dump (initS (c_kind c) (c_init c)) DSame (c_ops c) (c_obsN c) 0.
 Definition diffT (c : tcase) :=
   match c_obsT c with [] => None | t => diff_run stepS s_dump (initS (c_kind c) (c_init c)) DSame (opsT_of c) t 0 end.
 Definition diffI (c : tcase) :=
@@ -365,7 +423,8 @@ Definition values_longer (a : iarr) : bool :=
 (* tags name the region of a recorded OPEN finding of the faithful model I in which a divergence from S is
    expected (see known/C07.json):
    13 = C07-N13: the growing splice fast path (builtin_array.go:451) writes new indices without consulting
-        Array.prototype: an inherited accessor / non-writable element at an index in [length, newLength) is ignored *)
+        Array.prototype: an inherited accessor / non-writable element at an index in [length, newLength) is ignored;
+   14 = C07-N14, see below *)
 Definition tags (a : iarr) (o : top) : list N :=
   match o, a with
   | OSplice st dc items, ID d =>
@@ -378,6 +437,13 @@ Definition tags (a : iarr) (o : top) : list N :=
                            match snd p with EData _ w _ _ => negb w | EAcc _ _ _ _ => true end)
                  (b_proto (da_base d))
       then [13] else []
+  | OSetLenRe _ n eff k, _ =>
+      (* 14 = C07-N14: the valueOf of the assigned length switches the storage: the update goes to the dead object *)
+      (if i_lw a && (eff =? 3) && negb (same_kind a (fst (i_set a k 7))) then [14] else []) ++
+      (* 15 = C07-N15: the valueOf makes "length" read-only and returns the CURRENT length: nothing has to change, the
+         specification returns true (OrdinaryDefineOwnProperty with the same value), goja's setLength refuses *)
+      (let a' := if eff =? 1 then i_integrity true a else if eff =? 2 then i_with_lw a false else a in
+       if i_lw a && negb (i_lw a') && (n =? i_len a') then [15] else [])
   | _, _ => []
   end.
 
@@ -434,6 +500,7 @@ Definition expected (c : tcase) :=
   | None => ((diffN c, diffT c, diffI c, diffIT c), (tn, tt), (@None top, @None obs, @None obs))
   | Some n => ((diffN c, diffT c, diffI c, diffIT c), (tn, tt),
                (nth_error ops (N.to_nat n),
-                obs_at stepS s_dump (initS (c_kind c) (c_init c)) DSame ops (N.to_nat n),
+                (if c_kind c =? 2 then obs_at (step opsG) g_dump (initG (c_init c)) DSame ops (N.to_nat n)
+                 else obs_at stepS s_dump (initS (c_kind c) (c_init c)) DSame ops (N.to_nat n)),
                 obs_at stepI i_dump (initI (c_init c)) DSame ops (N.to_nat n)))
   end.
